@@ -18,7 +18,7 @@ from gtirb_rewriting import Patch, RewritingContext, patch_constraints
 from gtirb_rewriting.assembler import Assembler
 from gtirb_rewriting.assembly import X86Syntax
 
-from .project import Projector, classify, sx_desc, _decoder, base_name, whole_ir_report
+from .project import Projector, classify, sx_desc, _decoder, base_name, set_isa, whole_ir_report
 from .render import render
 
 SUFFIX_RE = re.compile(r"_\d+$")
@@ -58,7 +58,8 @@ def patch_text(spec: dict, isa: str) -> str:
                         + f"\n.section .data\n.Ld:\n.byte {k}\n"
                         + (f".quad {tgt or 'b1'}" if isa == "x64" else f".long {tgt or 'b1'}") + "\n.text"),
         }
-        return table[kind]
+        # PE/IA32's private label prefix is "L": ".Lx" would be an ordinary (unsuffixed) symbol there
+        return table[kind].replace(".L", "L") if isa == "ia32" else table[kind]
     if isa == "arm64":
         table = {
             "plain2": f"mov x9, #{k}",
@@ -199,6 +200,7 @@ def project_assembled(result: Assembler.Result, module: gtirb.Module) -> dict:
 
 def assemble_standalone(shape: dict, spec: dict) -> dict:
     """Assembles a catalogue patch against a fresh rendering of the shape."""
+    set_isa(shape.get("isa", "x64"))
     r2 = render(shape)
     asm = Assembler(r2.module, temp_symbol_suffix="_0", implicit_cfi_procedure=True)
     asm.assemble(patch_text(spec, shape.get("isa", "x64")), X86Syntax.ATT)
@@ -232,6 +234,7 @@ def run_sequential(case: dict) -> dict:
     """Applies the requests one at a time, each in its own RewritingContext."""
     shape = case["shape"]
     isa = shape.get("isa", "x64")
+    set_isa(isa)
     r = render(shape)
     proj = Projector(r.module)
     order = case.get("order") or list(range(len(case["reqs"])))
@@ -281,6 +284,7 @@ def run_case(case: dict, sink=None, sequential: bool = False) -> dict:
     """Executes one case.  case = {id, shape, reqs, order?}."""
     shape = case["shape"]
     isa = shape.get("isa", "x64")
+    set_isa(isa)
     r = render(shape)
     proj = Projector(r.module)
     pre = proj.project()
@@ -352,7 +356,8 @@ def run_case(case: dict, sink=None, sequential: bool = False) -> dict:
                 for q in trace_reqs:
                     if q["u"] == u and q["off"] == off and q["op"] in ("ins", "rep"):
                         out.extend(x["tgb"] for x in q["patch"]["units"] if x["tgb"])
-                return [n for n in out if not n.startswith(".L")]
+                return [n for n in out if not n.startswith(".L")
+                        and not (isa == "ia32" and n.startswith("L"))]
 
             observer = CacheObserver(proj, r.module, patch_syms)
             _verif.install(observer)
@@ -402,6 +407,7 @@ def run_levelb(case: dict) -> list:
     from .levelb import PrimitiveObserver
     shape = case["shape"]
     isa = shape.get("isa", "x64")
+    set_isa(isa)
     r = render(shape)
     proj = Projector(r.module)
     proj.project()
